@@ -1004,10 +1004,20 @@ reg(Prop("C20", "Each training position is processed exactly once per tuning epo
                          "with/without newline, binary and tiny alphabets (duplicate lines), written to disk and read through "
                          "NewChunker/Open/Read: one window [start,end), the tuner's Batches/Chunks schedule, or fixed-size "
                          "windows; refill buffer sizes from max-line-length upward when the hook epd/export_verif_c20.go is "
-                         "present (else backingBytes); non-trivial = at least two non-blank lines; distinct by input"),
+                         "present (else backingBytes); about a fifth of the files with six or more lines are read as a "
+                         "multi-chunk SESSION (2..4 windows that partition the index range, several chunks open at once, reads "
+                         "interleaved line by line, EOF/Close in either order, Close without EOF and re-open, Rewind, Read after "
+                         "EOF, second Close; kinds finish-then-two-at-once / round-robin / abandon-rewind / random) or through "
+                         "ONE tuning.Batches value hoisted out of a loop over 2..3 epochs; every case starts from emptied "
+                         "sync.Pools (two collections) on one P, so that a failing input fails again in the replay; "
+                         "non-trivial = at least two non-blank lines; distinct by input"),
           StreamCfg("c20_batch", 3000, 60000, judge="judge_c20_batch",
                     rule="Batches(n) for boundary and random n < 60 batches; Chunks of batch-shaped, chunk-multiple+-1 and "
-                         "arbitrary (also empty/inverted/over-long) ranges; non-trivial = non-empty range"),
+                         "arbitrary (also empty/inverted/over-long) ranges; 30 % RE-USE cases: 1..3 iter.Seq values (Batches / "
+                         "Chunks of different arguments) obtained first, then 2..5 traversals: the same value again, after a "
+                         "break at a random item, another (or the same) value ranged to its end inside the loop body, values "
+                         "interleaved; and one Batches value ranged 2..3 times with Chunks(batch) inside (hoisted schedule) - "
+                         "every traversal has to yield the whole partition again; non-trivial = non-empty range"),
           StreamCfg("c20_big", 2, 8, judge="judge_c20_file", model=False,
                     rule="files of more than NumLinesInBatch (and more than one chunk of) short lines read through the "
                          "tuner's own Batches/Chunks schedule; implementation judged by the specification only")],
